@@ -102,6 +102,29 @@ theorem length_set_le (k : κ) (v : α) (l : List (κ × α)) : (set k v l).leng
   rw [set_eq, List.length_cons]
   exact Nat.succ_le_succ (length_erase_le k l)
 
+/-- removing a key that is present frees at least one entry -/
+theorem length_erase_lt_of_contains {k : κ} {l : List (κ × α)} (h : contains k l = true) :
+    (erase k l).length + 1 ≤ l.length := by
+  induction l with
+  | nil => simp [contains, get] at h
+  | cons p r ih =>
+    obtain ⟨k', v⟩ := p
+    by_cases hk : k' = k
+    · subst hk
+      have : (erase k' ((k', v) :: r)) = erase k' r := by simp [erase, List.filter_cons]
+      rw [this, List.length_cons]
+      exact Nat.succ_le_succ (length_erase_le k' r)
+    · have hc : contains k r = true := by simpa [contains, get, hk] using h
+      have : (erase k ((k', v) :: r)) = (k', v) :: erase k r := by simp [erase, List.filter_cons, hk]
+      rw [this, List.length_cons, List.length_cons]
+      exact Nat.succ_le_succ (ih hc)
+
+/-- writing under a key that is present does not grow the list -/
+theorem length_set_le_of_contains {k : κ} (v : α) {l : List (κ × α)} (h : contains k l = true) :
+    (set k v l).length ≤ l.length := by
+  rw [set_eq, List.length_cons]
+  exact length_erase_lt_of_contains h
+
 omit [DecidableEq κ] in
 theorem noDup_filter {l : List (κ × α)} (p : κ × α → Bool) (h : NoDup l) : NoDup (l.filter p) := by
   unfold NoDup at *
